@@ -386,6 +386,31 @@ func (p *parser) value() (any, error) {
 			return Holder{A: a, B: u}, nil
 		}
 		return &TaggedHolder{A: a, B: u}, nil
+	case 'u', 'w': // u( X1 X2 ): []UserObj{*X1, *X2} (struct VALUES in a typed slice); w( X1 X2 ): [n]Holder{{nil, X1}, …} as []Holder
+		xs, err := p.seq()
+		if err != nil {
+			return nil, err
+		}
+		if t[0] == 'u' {
+			out := make([]UserObj, 0, len(xs))
+			for _, x := range xs {
+				u, ok := x.(*UserObj)
+				if !ok {
+					return nil, fmt.Errorf("bad u element")
+				}
+				out = append(out, *u)
+			}
+			return out, nil
+		}
+		out := make([]Holder, 0, len(xs))
+		for _, x := range xs {
+			u, ok := x.(*UserObj)
+			if !ok {
+				return nil, fmt.Errorf("bad w element")
+			}
+			out = append(out, Holder{A: int64(u.N), B: u})
+		}
+		return out, nil
 	case 'P': // P( v ): pointer to v
 		v, err := p.value()
 		if err != nil {
